@@ -33,6 +33,9 @@ def run(prog, chk):
     from . import c01
     c01.parent_slot_by_identity(prog, chk, "C04.j")
     no_raw_element_copies(prog, chk, "C04.k")
+    # begin() hands out a reference to the container's own _begin: an iterator argument may be that member (prepend() passes it) and has
+    # to behave as if copied first - read after _begin was re-seated, the new node is linked to itself and elements are destroyed twice
+    C.iterator_param_alias(prog, chk, "C04.l", tuple(C.NODE))
     # copies re-insert into the destination's own bucket array: its size and the count used for indexing must stay in agreement
     C.bucket_index(prog, chk, "C04.i", ("HashMap", "HashSet"))
 
